@@ -32,6 +32,17 @@ pub enum FileCase {
     BedLongSpans { variant: u32, opts: Opts },
     /// 16-base chromosomes with entries that start inside and end beyond the chromosome end
     BedBeyondEnd { lay: u32, opts: Opts },
+    /// sparse data at one scale, dense at the next: variant 0 = 2 100 one-base items 1 000 bases
+    /// apart, variant 1 = 1 500 clusters of 20 adjacent values 1 000 bases apart (automatic zoom
+    /// levels are then kept, dropped and kept again)
+    WigSparse { variant: u32, opts: Opts },
+    BedSparse { variant: u32, opts: Opts },
+    /// medium-size input: chromosomes of 200 / 30 000 / 300 items (the long one has well over 64 KiB
+    /// of text and of encoded sections, several zoom levels of 8 KiB and more, automatic zoom
+    /// levels that are kept and dropped), optionally into a destination that accepts at most
+    /// `cap` bytes per write call (0 = no limit)
+    WigMid { cap: u32, opts: Opts },
+    BedMid { cap: u32, opts: Opts },
     /// sections of 8 KiB and more (uncompressed, 1024 items per slot, `n` items on each of two
     /// chromosomes) written into a destination that accepts at most `cap` bytes per write call
     WigShortSink { n: u32, cap: u32, opts: Opts },
@@ -225,6 +236,79 @@ pub fn expand(c: &FileCase) -> FileCase {
                 opts: opts.clone(),
             })
         }
+        FileCase::WigSparse { variant, opts } => {
+            let mut items = vec![];
+            if *variant == 0 {
+                for i in 0..2100u32 {
+                    items.push(WItem { s: 1000 * i + 7, e: 1000 * i + 8, vb: ((i % 13) as f32 + 0.5).to_bits() });
+                }
+            } else {
+                for c in 0..1500u32 {
+                    for j in 0..20u32 {
+                        items.push(WItem { s: 1000 * c + j, e: 1000 * c + j + 1, vb: (((c + j) % 17) as f32 * 0.5).to_bits() });
+                    }
+                }
+            }
+            FileCase::Wig(WigCase { chroms: vec![WChrom { name: "sp".into(), len: 2_200_000, items }], extra_sizes: vec![], allow_ooo: false, opts: opts.clone() })
+        }
+        FileCase::BedSparse { variant, opts } => {
+            let mut items = vec![];
+            let name = |i: u32| format!("{:016x}{:016x}{:016x}", (i as u64 + 1).wrapping_mul(0x9e3779b97f4a7c15), (i as u64 + 7).wrapping_mul(0xc2b2ae3d27d4eb4f), (i as u64 + 3).wrapping_mul(0x165667b19e3779f9));
+            if *variant == 0 {
+                for i in 0..2100u32 {
+                    items.push(BItem { s: 1000 * i + 7, e: 1000 * i + 8, rest: name(i) });
+                }
+            } else {
+                for c in 0..1500u32 {
+                    for j in 0..20u32 {
+                        items.push(BItem { s: 1000 * c + j, e: 1000 * c + j + 2, rest: name(c * 20 + j) });
+                    }
+                }
+            }
+            FileCase::Bed(BedCase { chroms: vec![BChrom { name: "sp".into(), len: 2_200_000, items }], extra_sizes: vec![], allow_ooo: false, autosql: None, opts: opts.clone() })
+        }
+        FileCase::WigMid { opts, .. } => FileCase::Wig(WigCase {
+            chroms: [("m1", 200u32), ("m2", 30_000), ("m3", 300)]
+                .iter()
+                .enumerate()
+                .map(|(ci, (name, n))| WChrom {
+                    name: name.to_string(),
+                    len: 100_000,
+                    // clusters of adjacent values separated by gaps of 0 / 1 / 7 bases and one of 1 000
+                    items: (0..*n)
+                        .map(|i| {
+                            let s = 3 * i + if i > n / 2 { 1000 } else { 0 } + (i / 97) % 2;
+                            WItem { s, e: s + 1 + (i % 2), vb: (((i * 7 + ci as u32) % 257) as f32 * 0.25 - 8.0).to_bits() }
+                        })
+                        .collect(),
+                })
+                .collect(),
+            extra_sizes: vec![],
+            allow_ooo: false,
+            opts: opts.clone(),
+        }),
+        FileCase::BedMid { opts, .. } => FileCase::Bed(BedCase {
+            chroms: [("m1", 200u32), ("m2", 30_000), ("m3", 300)]
+                .iter()
+                .enumerate()
+                .map(|(ci, (name, n))| BChrom {
+                    name: name.to_string(),
+                    len: 100_000,
+                    items: (0..*n)
+                        .map(|i| {
+                            let s = 3 * i + if i > n / 2 { 1000 } else { 0 };
+                            // every 500th entry is long (nests the following ones), names are hardly compressible
+                            let e = s + if i % 500 == 0 { 900 } else { 2 + (i % 4) };
+                            BItem { s, e, rest: format!("n{:x}\t{}", (i as u64 + 1).wrapping_mul(0x9e3779b97f4a7c15) ^ ci as u64, i % 1000) }
+                        })
+                        .collect(),
+                })
+                .collect(),
+            extra_sizes: vec![],
+            allow_ooo: false,
+            autosql: None,
+            opts: opts.clone(),
+        }),
         FileCase::WigShortSink { n, opts, .. } => FileCase::Wig(WigCase {
             chroms: ["s1", "s2"]
                 .iter()
@@ -420,6 +504,72 @@ pub fn huge_chroms() -> Vec<(String, u32, Vec<(u32, u32)>)> {
         ("h2".to_string(), 3_000_000_000, vec![(2_999_999_990, 3_000_000_000)]),
         ("h3".to_string(), 16, vec![(1, 3), (3, 4), (9, 16)]),
     ]
+}
+
+pub fn sparse_cases(bed: bool) -> Vec<FileCase> {
+    let mut v = vec![];
+    for variant in 0..2u32 {
+        for two_pass in [false, true] {
+            for compress in [true, false] {
+                let mut o = Opts::base();
+                o.two_pass = two_pass;
+                o.compress = compress;
+                o.zoom = Zoom::AutoDefault;
+                v.push(if bed { FileCase::BedSparse { variant, opts: o } } else { FileCase::WigSparse { variant, opts: o } });
+            }
+        }
+    }
+    v
+}
+
+/// Sets the destination write limit a case asks for (reset when the guard is dropped).
+pub struct CapGuard;
+impl Drop for CapGuard {
+    fn drop(&mut self) {
+        SINK_CAP.with(|x| x.set(None));
+    }
+}
+pub fn case_sink(case: &FileCase, out: &mut Outcome) -> CapGuard {
+    let cap = match case {
+        FileCase::WigShortSink { cap, .. } | FileCase::BedShortSink { cap, .. } | FileCase::WigMid { cap, .. } | FileCase::BedMid { cap, .. } => *cap,
+        _ => 0,
+    };
+    if cap > 0 {
+        SINK_CAP.with(|x| x.set(Some(cap as usize)));
+        out.count("files_written_into_a_short_writing_destination", 1);
+    }
+    if matches!(case, FileCase::WigMid { .. } | FileCase::BedMid { .. }) {
+        out.count("medium_size_files", 1);
+    }
+    CapGuard
+}
+
+/// medium-size cases: a covering list over (slots, compression, pass, staging, source, runtime,
+/// zoom list, destination write limit)
+pub fn mid_cases(bed: bool) -> Vec<FileCase> {
+    let mut v = vec![];
+    let mut n = 0usize;
+    for (ips, compress) in [(64u32, true), (1024, true), (1024, false), (8192, false)] {
+        for two_pass in [false, true] {
+            for inmemory in [true, false] {
+                for zoom in [Zoom::AutoDefault, Zoom::Manual(vec![10, 250, 1000])] {
+                    n += 1;
+                    let mut o = Opts::base();
+                    o.ips = ips;
+                    o.compress = compress;
+                    o.two_pass = two_pass;
+                    o.inmemory = inmemory;
+                    o.zoom = zoom;
+                    o.src = [SrcKind::Iter, SrcKind::SerialText, SrcKind::ParallelFile][n % 3];
+                    o.rt = [Rt::Current, Rt::Multi(4)][(n / 3) % 2];
+                    o.chan = [100usize, 0, 1][(n / 2) % 3];
+                    let cap = [0u32, 3000, 0, 20_000][n % 4];
+                    v.push(if bed { FileCase::BedMid { cap, opts: o } } else { FileCase::WigMid { cap, opts: o } });
+                }
+            }
+        }
+    }
+    v
 }
 
 pub fn short_sink_cases(bed: bool) -> Vec<FileCase> {
@@ -1039,13 +1189,18 @@ impl Check for C01 {
         "C01"
     }
     fn cases(&self, tier: Tier) -> Box<dyn Iterator<Item = FileCase> + '_> {
-        Box::new(wig_family(tier).chain(huge_cases(false).into_iter()).chain(short_sink_cases(false).into_iter()))
+        Box::new(wig_family(tier).chain(huge_cases(false).into_iter()).chain(short_sink_cases(false).into_iter()).chain(mid_cases(false).into_iter()))
     }
     fn run(&self, case: &FileCase, out: &mut Outcome) {
         let FileCase::Wig(c) = expand(case) else { return };
-        if let FileCase::WigShortSink { cap, .. } = case {
-            SINK_CAP.with(|x| x.set(Some(*cap as usize)));
-            out.count("files_written_into_a_short_writing_destination", 1);
+        if let FileCase::WigShortSink { cap, .. } | FileCase::WigMid { cap, .. } = case {
+            if *cap > 0 {
+                SINK_CAP.with(|x| x.set(Some(*cap as usize)));
+                out.count("files_written_into_a_short_writing_destination", 1);
+            }
+        }
+        if matches!(case, FileCase::WigMid { .. }) {
+            out.count("medium_size_files", 1);
         }
         let written = do_write_wig(&c, out);
         SINK_CAP.with(|x| x.set(None));
@@ -1227,13 +1382,18 @@ impl Check for C02 {
                 }
             }
         }
-        Box::new(bed_family(tier).chain(huge_cases(true).into_iter()).chain(short_sink_cases(true).into_iter()).chain(spans.into_iter()))
+        Box::new(bed_family(tier).chain(huge_cases(true).into_iter()).chain(short_sink_cases(true).into_iter()).chain(spans.into_iter()).chain(mid_cases(true).into_iter()))
     }
     fn run(&self, case: &FileCase, out: &mut Outcome) {
         let FileCase::Bed(c) = expand(case) else { return };
-        if let FileCase::BedShortSink { cap, .. } = case {
-            SINK_CAP.with(|x| x.set(Some(*cap as usize)));
-            out.count("files_written_into_a_short_writing_destination", 1);
+        if let FileCase::BedShortSink { cap, .. } | FileCase::BedMid { cap, .. } = case {
+            if *cap > 0 {
+                SINK_CAP.with(|x| x.set(Some(*cap as usize)));
+                out.count("files_written_into_a_short_writing_destination", 1);
+            }
+        }
+        if matches!(case, FileCase::BedMid { .. }) {
+            out.count("medium_size_files", 1);
         }
         let written = do_write_bed(&c, out);
         SINK_CAP.with(|x| x.set(None));
@@ -1865,10 +2025,13 @@ impl Check for C07 {
         "C07"
     }
     fn cases(&self, tier: Tier) -> Box<dyn Iterator<Item = FileCase> + '_> {
-        wig_zoom_family(tier)
+        // + chromosomes of 100 000 / 50 / 7 bases with sparse data (automatic zoom lists keep and drop
+        // levels there as they never do on 16-base chromosomes)
+        Box::new(wig_zoom_family(tier).chain(uneven_cases(false).into_iter()).chain(mid_cases(false).into_iter()).chain(sparse_cases(false).into_iter()))
     }
     fn run(&self, case: &FileCase, out: &mut Outcome) {
         let FileCase::Wig(c) = expand(case) else { return };
+        let _cap = case_sink(case, out);
         let Some(bytes) = do_write_wig(&c, out) else { return };
         let dec = structure(&bytes, c.chroms.len(), out);
         gap_features_wig(&c, out);
@@ -1876,7 +2039,7 @@ impl Check for C07 {
             && c.chroms.iter().map(|c| c.items.len()).sum::<usize>() >= 2;
         // range queries on every file whose layout index is small enough to keep quick quick:
         // all multi-chromosome files and every single-chromosome file with <= 3 items
-        let all_ranges = c.chroms.iter().all(|ch| ch.items.len() <= 3) || c.chroms.len() > 1;
+        let all_ranges = (c.chroms.iter().all(|ch| ch.items.len() <= 3) || c.chroms.len() > 1) && c.chroms.iter().all(|ch| ch.len <= 64);
         oracle_c07(&c, &bytes, all_ranges, out);
     }
     fn space(&self, tier: Tier) -> serde_json::Value {
@@ -1903,7 +2066,7 @@ impl Check for C08 {
             let zo = zo.clone();
             (0..8usize).step_by(step).map(move |li| FileCase::ZoomTool(bed_multi(si, li, &zo[(li * 3 + si) % zo.len()])))
         });
-        Box::new(bed_zoom_family(tier).chain(tools))
+        Box::new(bed_zoom_family(tier).chain(tools).chain(uneven_cases(true).into_iter()).chain(mid_cases(true).into_iter()).chain(sparse_cases(true).into_iter()))
     }
     fn run(&self, case: &FileCase, out: &mut Outcome) {
         if let FileCase::ZoomTool(c) = case {
@@ -1912,6 +2075,7 @@ impl Check for C08 {
             return;
         }
         let FileCase::Bed(c) = expand(case) else { return };
+        let _cap = case_sink(case, out);
         let Some(bytes) = do_write_bed(&c, out) else { return };
         let dec = structure(&bytes, c.chroms.len(), out);
         let overlapping = c
@@ -1923,7 +2087,7 @@ impl Check for C08 {
         }
         out.nontrivial = dec.as_ref().map(|d| !d.zooms.is_empty()).unwrap_or(false)
             && c.chroms.iter().map(|c| c.items.len()).sum::<usize>() >= 2;
-        let all_ranges = c.chroms.iter().all(|ch| ch.items.len() <= 2) || c.chroms.len() > 1;
+        let all_ranges = (c.chroms.iter().all(|ch| ch.items.len() <= 2) || c.chroms.len() > 1) && c.chroms.iter().all(|ch| ch.len <= 64);
         oracle_c08(&c, &bytes, all_ranges, out);
     }
     fn space(&self, tier: Tier) -> serde_json::Value {
@@ -2150,10 +2314,17 @@ impl Check for C09 {
             wig_family(tier)
                 .chain(bed_family(tier))
                 .chain(wig_zoom_family(tier))
-                .chain(bed_zoom_family(tier)),
+                .chain(bed_zoom_family(tier))
+                .chain(mid_cases(false).into_iter())
+                .chain(mid_cases(true).into_iter())
+                .chain(sparse_cases(false).into_iter())
+                .chain(sparse_cases(true).into_iter())
+                .chain(short_sink_cases(false).into_iter())
+                .chain(short_sink_cases(true).into_iter()),
         )
     }
     fn run(&self, case: &FileCase, out: &mut Outcome) {
+        let _cap = case_sink(case, out);
         match expand(case) {
             FileCase::Wig(c) => {
                 let Some(bytes) = do_write_wig(&c, out) else { return };
